@@ -43,6 +43,11 @@ def run(chk: Check):
                               slow=(8,), tail_fast=8)
     traces += D.engine_traces(gs.HMCKernel, ["zz", "aa"], ["mm", "Beta"], False, seed=chk.seed + 13, chains=2, fast=6, slow=(9, 6),
                               tail_fast=9)
+    # a burn-in epoch before the slow adaptation epochs; thinned slow adaptation epochs (tuned on what was recorded)
+    traces += D.engine_traces(gs.NUTSKernel, ["zz", "aa"], ["mm"], True, seed=chk.seed + 15, chains=1, companion="rw", pre_burnin=6,
+                              slow=(8, 10))
+    traces += D.engine_traces(gs.HMCKernel, ["zz", "aa"], ["mm"], True, seed=chk.seed + 16, chains=2, companion="rw", slow=(12, 16),
+                              slow_thin=2)
     # next to a kernel whose own tuning reports an error code (identifiers in non-alphabetical order)
     traces += D.engine_traces(gs.NUTSKernel, ["zz", "aa"], ["mm"], True, seed=chk.seed + 14, chains=3, companion="tuneerr", slow=(8, 10))
     if not chk.quick:
